@@ -440,6 +440,70 @@ def wprod_targets():
     return out
 
 
+def gfmarg_targets():
+    """TimeFixedGFormula.fit: the six assignments to self.marginal_outcome (weights column given or not) x (standardize =
+    population / exposed / unexposed): which aggregate (np.mean / np.average with weights), over which rows (the mask on the
+    OBSERVED exposure self.gf[self.exposure], or none), of which columns.  Rows are (observed exposure, prediction, weight)."""
+    TF = os.path.join(REPO, 'zepid/causal/gformula/TimeFixed.py')
+    fn = find_function(ast.parse(open(TF).read()), 'TimeFixedGFormula.fit')
+    tops = [st for st in fn.body if isinstance(st, ast.If) and ast.unparse(st.test) == 'self._weights is None']
+    if len(tops) != 1:
+        raise TranslateError('expected one `if self._weights is None:` in TimeFixedGFormula.fit, found %d' % len(tops))
+
+    def pick(stmts, std):
+        """the assignment to self.marginal_outcome reached for this standardize value"""
+        for st in stmts:
+            if isinstance(st, ast.Assign) and ast.unparse(st.targets[0]) == 'g' and ast.unparse(st.value) == 'g.dropna()':
+                continue
+            if isinstance(st, ast.If):
+                t = ast.unparse(st.test)
+                if t == "self.standardize == 'population'":
+                    return pick(st.body if std == 'population' else st.orelse, std)
+                if t == "self.standardize == 'exposed'":
+                    return pick(st.body if std == 'exposed' else st.orelse, std)
+                raise TranslateError('test `%s` in the marginalisation block of TimeFixedGFormula.fit' % t)
+            if isinstance(st, ast.Assign) and ast.unparse(st.targets[0]) == 'self.marginal_outcome':
+                return st.value
+            raise TranslateError('statement `%s` in the marginalisation block' % ast.unparse(st)[:60])
+        raise TranslateError('no assignment to self.marginal_outcome for standardize=%s' % std)
+
+    def column(e):
+        """-> (mask 'all'|'1'|'0', column 'pred'|'w')"""
+        u = ast.unparse(e)
+        for col, name in (('self.outcome', 'pred'), ('self._weights', 'w')):
+            if u == 'g[%s]' % col:
+                return 'all', name
+            for lvl in ('1', '0'):
+                if u == 'g.loc[self.gf[self.exposure] == %s, %s]' % (lvl, col):
+                    return lvl, name
+        raise TranslateError('column expression %s in the marginalisation block' % u)
+    out = []
+    for weighted, body in ((False, tops[0].body), (True, tops[0].orelse)):
+        for std in ('population', 'exposed', 'unexposed'):
+            v = pick(body, std)
+            if not (isinstance(v, ast.Call) and isinstance(v.func, ast.Attribute) and ast.unparse(v.func.value) == 'np'):
+                raise TranslateError('marginal_outcome is %s' % ast.unparse(v))
+            if v.func.attr == 'mean' and len(v.args) == 1 and not v.keywords:
+                mask, col = column(v.args[0])
+                if col != 'pred':
+                    raise TranslateError('np.mean of %s' % ast.unparse(v.args[0]))
+                agg = 'Qsum (fun r => snd (fst r)) sel / Qlen sel'
+            elif v.func.attr == 'average' and len(v.args) == 1 and [k.arg for k in v.keywords] == ['weights']:
+                mask, col = column(v.args[0])
+                mask2, col2 = column(v.keywords[0].value)
+                if col != 'pred' or col2 != 'w' or mask != mask2:
+                    raise TranslateError('np.average arguments %s' % ast.unparse(v))
+                agg = 'Qsum (fun r => snd r * snd (fst r)) sel / Qsum (fun r => snd r) sel'
+            else:
+                raise TranslateError('aggregate %s' % ast.unparse(v))
+            sel = 'rows' if mask == 'all' else 'filter (fun r => %s) rows' % ('fst (fst r)' if mask == '1' else 'negb (fst (fst r))')
+            name = 'gf_fit_%s_%s' % (std, 'w' if weighted else 'now')
+            txt = ('(* rows: (observed exposure, prediction under the plan, weight) of the rows left after dropna() *)\n'
+                   'Definition %s_Q (rows : list (bool * Q * Q)) : Q :=\n  let sel := %s in\n  %s.' % (name, sel, agg))
+            out.append(RawTarget(name, txt, ['rows'], ['marginal_outcome']))
+    return out
+
+
 GROUPS = {
     'tmle': tmle_targets,
     'calc': calc_targets,
@@ -450,6 +514,7 @@ GROUPS = {
     'pool': pool_targets,
     'pbounds': bounds_clip_targets,
     'wprod': wprod_targets,
+    'gfmarg': gfmarg_targets,
 }
 
 
@@ -464,7 +529,7 @@ def generate(groups=None):
         try:
             ts = fn()
             r = HEADER_R + '\n' + '\n\n'.join(t.coq() for t in ts) + '\n'
-            q = HEADER_Q + ('From Zepid Require Import Base.QSum Base.QAgg.\n' if g == 'pool' else '') + '\n' + '\n\n'.join(t.coq_q() for t in ts) + '\n'
+            q = HEADER_Q + ('From Zepid Require Import Base.QSum Base.QAgg.\n' if g in ('pool', 'gfmarg') else '') + '\n' + '\n\n'.join(t.coq_q() for t in ts) + '\n'
             side[g] = [t.sidecar() for t in ts]
             err = None
         except (TranslateError, SyntaxError, OSError) as e:
